@@ -128,15 +128,18 @@ Proof. exact rank_total_on_nan_lemma. Qed.
 (* ---- strictness *)
 
 (* strictness_eval_sound: the truth value computed by is_strictness_fulfilled is the documented meaning
-   (docs/strictness.rst, Model.spec_strictness) for every expression of the grammar, every model and result —
-   outside three situations in which the CODE fails (Refuted.v): `rse` used together with rse_theta/omega/sigma;
-   NaN gradients with final_zero_gradient_omega / _sigma; an estimate whose 2-significant-digit rounding by numpy
-   (rint(x * 10^d) / 10^d in double arithmetic) differs from the exact rounding used for its bound. *)
+   (docs/strictness.rst, Model.spec_strictness: criterion by criterion) — for EVERY strictness argument, every model
+   and every result, no side condition.  (Until the fix commits 382c897, 6a7564c, 839c032 this needed three guards;
+   the former counter-examples are regression Examples in Refuted.v.) *)
 Theorem strictness_eval_sound :
-  forall e c,
-    g_rse_not_rebound e = true -> g_grad_nan_rows e c = true -> g_near_round e c = true ->
-    is_strictness_fulfilled (StExpr e) c = spec_strictness (StExpr e) c.
+  forall s c, is_strictness_fulfilled s c = spec_strictness s c.
 Proof. exact strictness_eval_sound_lemma. Qed.
+
+(* comparing the 2-significant-digit roundings as doubles is comparing the decimals: on all decimals m * 10^e,
+   10 <= m <= 99, -15 <= e <= 15 the nearest-double map is injective (closed by computation over the 2790 values) *)
+Theorem round53_separates_sig2_decimals :
+  forall a b, In a sig2_decimals_list -> In b sig2_decimals_list -> (round53 a == round53 b)%Q -> a = b.
+Proof. exact round53_separates_lemma. Qed.
 
 (* numeric criteria compare ALL elements; a NaN element fails every comparison; `!=` is the negation of `==` *)
 Theorem strictness_all_elements :
